@@ -164,11 +164,8 @@ def check(run):
            {'_version', '_types', '_globals', '_struct_unions', '_enums', '_typenames', '_includes'} <= names, rc.where(wp), 'reader accepts %s' % kw)
     # C enum primitive map
     ee = rc.find('EnumExpr.as_python_expr')
-    dmap = {}
-    for d in ast.walk(ee):
-        if isinstance(d, ast.Dict):
-            for k, v in zip(d.keys, d.values):
-                dmap[ast.literal_eval(k)] = v.id
+    from . import c10
+    dmap = {k: v for k, v in c10.enum_prim_table()[2].items()}
     mac = wt.macros.get('_cffi_prim_int')
     cmap = {}
     if mac:
